@@ -35,7 +35,7 @@ RULE = ('checksum: chunk sizes {1,2,7,64,4096,65536,>size,default,-1} x sizes k*
         'hashlib.algorithms_available over the run) + missing file/dir/bad algorithm/chunk 0,-2; last_bytes: sizes {0,1,2,10,4095..4097,70000} x '
         'n in {0,1,size-1,size,size+1,2^40,2^63-1,2^63,2^63+1,-1,-3,random}; ensure_tree/delete_if_exists/write_to_tempfile on real trees: '
         'missing depth 0..4 below existing depth 0..2, existing directory, file at the path, file as an ancestor, random worlds, each run twice '
-        '(idempotence); short-write injection into os.write (at most 1, 3, 4096 bytes per call) x sizes around the multiples of the limit; fault injection: every errno of errno.errorcode + {0,133,200,9999} + non-OSError x target {dir,file,missing}; '
+        '(idempotence); real short writes (RLIMIT_FSIZE in a subprocess, sizes L-1, L, L+1, 2L+1); class x errno injection (OSError(errno), user subclass, errno assigned later, builtin subclass with a foreign errno); short-write injection into os.write (at most 1, 3, 4096 bytes per call) x sizes around the multiples of the limit; fault injection: every errno of errno.errorcode + {0,133,200,9999} + non-OSError x target {dir,file,missing}; '
         'distinct = distinct case JSON; trivial = none')
 
 RUN_ROOT = None
@@ -106,7 +106,7 @@ def nfds():
     return len(os.listdir('/proc/self/fd'))
 
 def canon_exc(e):
-    if isinstance(e, OSError): return 'OSERR:%s' % (e.errno,)
+    if isinstance(e, OSError): return 'OSERR:%s:%s' % (e.errno, type(e).__name__)
     return 'EXN:' + type(e).__name__
 
 def outcome(f, show=lambda v: ''):
@@ -224,11 +224,36 @@ def tree_scenarios(rng, tier):
         yield w, rand_path(rng, w)
 
 INJ_ERRNOS = sorted(errno.errorcode) + [0, 133, 200, 9999]
+class MyErr(OSError):
+    """a user-defined OSError subclass: MyErr(errno.ENOENT, 'x') is NOT a FileNotFoundError"""
+BUILTIN_OSERRORS = ['FileNotFoundError', 'FileExistsError', 'PermissionError', 'IsADirectoryError', 'NotADirectoryError',
+                    'InterruptedError', 'BlockingIOError', 'ChildProcessError', 'ProcessLookupError', 'TimeoutError',
+                    'ConnectionError', 'BrokenPipeError', 'ConnectionAbortedError', 'ConnectionRefusedError', 'ConnectionResetError']
+def make_oserror(e, how):
+    """the ways an OSError instance with errno e can come about; class and errno are independent"""
+    if how == 'plain': return OSError(e, 'injected')                 # CPython picks the subclass from the errno
+    if how == 'subclass': return MyErr(e, 'injected')                # user-defined subclass
+    if how == 'late':                                                # errno assigned after construction
+        x = OSError('injected'); x.errno = e; return x
+    if how.startswith('builtin:'):                                   # a builtin subclass carrying some OTHER errno
+        x = getattr(__import__('builtins'), how[8:])('injected'); x.errno = e; return x
+    raise KeyError(how)
+def inj_class(e, how):
+    return type(make_oserror(e, how)).__name__
+
 def inj_cases(rng, tier):
     for e in INJ_ERRNOS + [-1, 'ValueError', 'KeyError', None]:
-        for tgt in ('dir', 'file', 'missing'):
-            yield {'op': 'ensure_tree_inj', 'errno': e, 'target': tgt}
-        yield {'op': 'delete_inj', 'errno': e}
+        hows = ['plain', 'subclass', 'late'] if isinstance(e, int) and e >= 0 else ['plain']
+        for how in hows:
+            for tgt in ('dir', 'file', 'missing'):
+                yield {'op': 'ensure_tree_inj', 'errno': e, 'target': tgt, 'how': how}
+            yield {'op': 'delete_inj', 'errno': e, 'how': how}
+    # builtin subclasses whose errno does not match their class (assigned afterwards)
+    for b in BUILTIN_OSERRORS:
+        for e in [errno.ENOENT, errno.EEXIST, errno.EACCES, rng.choice(INJ_ERRNOS)]:
+            for tgt in ('dir', 'file', 'missing'):
+                yield {'op': 'ensure_tree_inj', 'errno': e, 'target': tgt, 'how': 'builtin:' + b}
+            yield {'op': 'delete_inj', 'errno': e, 'how': 'builtin:' + b}
 
 def gen_cases(rng, tier):
     yield from inj_cases(rng, tier)
@@ -253,6 +278,10 @@ def gen_cases(rng, tier):
             yield {'op': 'write_to_tempfile', 'world': [['D', 'a', None]], 'path': rng.choice(['a', 'a/n1', None]),
                    'content': {'size': size, 'seed': rng.randrange(50)}, 'suffix': rng.choice(sufs), 'prefix': rng.choice(pres),
                    'defaults': False, 'wlimit': lim}
+    # REAL short writes: RLIMIT_FSIZE = L in a subprocess, sizes around the limit (not modelled: oracle only)
+    for L in ((4096,) if tier == 'quick' else (1, 4096, 65536)):
+        for size in (L - 1, L, L + 1, 2 * L + 1):
+            yield {'op': 'write_rlimit', 'limit': L, 'size': size, 'seed': rng.randrange(50)}
     yield from checksum_cases(rng, tier)
     yield from last_bytes_cases(rng, tier)
 
@@ -301,6 +330,35 @@ def impl(c):
         signal.setitimer(signal.ITIMER_REAL, 0)
         signal.signal(signal.SIGALRM, old)
 
+_RLIMIT_SCRIPT = r'''
+import sys, os, signal, resource, json
+repo, d, L, size, seed = sys.argv[1], sys.argv[2], int(sys.argv[3]), int(sys.argv[4]), int(sys.argv[5])
+sys.path.insert(0, repo)
+from oslo_utils import fileutils
+content = bytes(((i * 7 + seed * 13 + (i // 251) * 31) & 255) for i in range(size))
+signal.signal(signal.SIGXFSZ, signal.SIG_IGN)                 # a write past the limit fails with EFBIG instead of killing us
+soft, hard = resource.getrlimit(resource.RLIMIT_FSIZE)
+resource.setrlimit(resource.RLIMIT_FSIZE, (L, hard))          # the kernel now cuts a write that crosses L short (a REAL short write)
+try:
+    p = fileutils.write_to_tempfile(content, path=d)
+except Exception as e:
+    print('OSERR:%s:%s' % (e.errno, type(e).__name__) if isinstance(e, OSError) else 'EXN:' + type(e).__name__)
+else:
+    with open(p, 'rb') as f: got = f.read()
+    print('OK:stored=%d of %d exact=%s' % (len(got), len(content), got == content))
+'''
+
+def _write_under_rlimit(base, c):
+    """write_to_tempfile in a SUBPROCESS whose RLIMIT_FSIZE is L (SIGXFSZ ignored): the kernel transfers only the bytes up to
+    the limit (a genuine short write(2), not an emulation) and fails the next write with EFBIG.  The limit cannot leak into
+    the harness; the directory is removed by the caller."""
+    import subprocess
+    d = os.path.join(base, 'd'); os.makedirs(d)
+    r = subprocess.run([sys.executable, '-c', _RLIMIT_SCRIPT, os.environ.get('VERIF_REPO', '/repo'), d, str(c['limit']), str(c['size']), str(c.get('seed', 0))],
+                       stdout=subprocess.PIPE, stderr=subprocess.PIPE, text=True, timeout=60)
+    out = r.stdout.strip().splitlines()
+    return out[-1] if out else 'SUBPROCESS-FAILED:%d:%s' % (r.returncode, r.stderr.strip()[-200:])
+
 def _impl(c):
     fu = _fu()
     op = c['op']
@@ -331,7 +389,7 @@ def _impl(c):
                 if e == -1: return None
                 if isinstance(e, str): raise {'ValueError': ValueError, 'KeyError': KeyError}[e]('injected')
                 if e is None: raise OSError('injected without errno')
-                raise OSError(e, 'injected')
+                raise make_oserror(e, c.get('how', 'plain'))
             if op == 'delete_inj':
                 return outcome(lambda: fu.delete_if_exists(os.path.join(base, 'p'), remove=boom))
             full = os.path.join(base, 'p')
@@ -363,6 +421,8 @@ def _impl(c):
                 os.write = real_write
                 tempfile.tempdir = saved
             return '%s %s' % (r, fmt_world(dump_world(base), nfds() - n0))
+        if op == 'write_rlimit':
+            return _write_under_rlimit(base, c)
         if op == 'checksum':
             mk_world(base, _file_world(c))
             p = _target_path(base, c)
@@ -412,7 +472,10 @@ def encode(c):
         e = c['errno']
         if e is None or e == 'KeyError': return None          # errno None / other classes: oracle only
         code = -2 if e == 'ValueError' else e
-        return [op, str(code)] + (['1' if c['target'] == 'dir' else '0'] if op == 'ensure_tree_inj' else [])
+        how = c.get('how', 'plain')
+        # 'plain': the model derives the class from the errno itself (table of the running interpreter); otherwise it is given
+        cls = '' if how == 'plain' or code < 0 else inj_class(e, how)
+        return [op, str(code)] + (['1' if c['target'] == 'dir' else '0'] if op == 'ensure_tree_inj' else []) + [cls]
     if op == 'write_to_tempfile':
         if c['path'] is not None and not _clean(c['path']): return None
         lim = str(c.get('wlimit') or 0)
@@ -519,15 +582,17 @@ def oracle(c, io):
         e = c['errno']
         if e == -1: want = 'OK:'
         elif isinstance(e, str): want = 'EXN:' + e
-        elif e == errno.EEXIST and c['target'] == 'dir': want = 'OK:'
-        else: want = 'OSERR:%s' % (e,)
-        return None if io == want else 'ensure_tree with makedirs failing with %r on a %s gives %s, expected %s' % (e, c['target'], io, want)
+        elif e == errno.EEXIST and c['target'] == 'dir': want = 'OK:'            # whatever the class of the instance
+        elif e is None: want = 'OSERR:None:OSError'
+        else: want = 'OSERR:%s:%s' % (e, inj_class(e, c.get('how', 'plain')))           # the same instance is re-raised
+        return None if io == want else 'ensure_tree with makedirs raising %s errno %r on a %s gives %s, expected %s' % (c.get('how', 'plain'), e, c['target'], io, want)
     if op == 'delete_inj':
         e = c['errno']
         if e == -1 or e == errno.ENOENT: want = 'OK:'
         elif isinstance(e, str): want = 'EXN:' + e
-        else: want = 'OSERR:%s' % (e,)
-        return None if io == want else 'delete_if_exists with remove failing with %r gives %s, expected %s' % (e, io, want)
+        elif e is None: want = 'OSERR:None:OSError'
+        else: want = 'OSERR:%s:%s' % (e, inj_class(e, c.get('how', 'plain')))
+        return None if io == want else 'delete_if_exists with remove raising %s errno %r gives %s, expected %s' % (c.get('how', 'plain'), e, io, want)
     if op in ('ensure_tree', 'delete_if_exists'):
         main, _, raw = io.partition(' RAW=')
         main, _, again = main.partition(' AGAIN=')
@@ -536,8 +601,8 @@ def oracle(c, io):
         p = c['path']
         # what the underlying call reports decides (already-exists for a directory / not-found are successes)
         if raw.startswith('OK:'): want = 'OK:'
-        elif op == 'ensure_tree' and raw == 'OSERR:%d' % errno.EEXIST and before.get(p, ('?',))[0] == 'D': want = 'OK:'
-        elif op == 'delete_if_exists' and raw == 'OSERR:%d' % errno.ENOENT: want = 'OK:'
+        elif op == 'ensure_tree' and raw.startswith('OSERR:%d:' % errno.EEXIST) and before.get(p, ('?',))[0] == 'D': want = 'OK:'
+        elif op == 'delete_if_exists' and raw.startswith('OSERR:%d:' % errno.ENOENT): want = 'OK:'
         else: want = raw
         if head != want:
             return '%s(%r): %s, the underlying call gives %s so %s is expected' % (op, p, head, raw, want)
@@ -560,6 +625,12 @@ def oracle(c, io):
         else:
             if after != before and op == 'delete_if_exists': return 'failed delete_if_exists(%r) changed the tree' % p
         return None
+    if op == 'write_rlimit':
+        # "holding exactly the content": under a real short write either an exception propagates or everything is stored —
+        # never a silently shorter file
+        if io.startswith('OSERR:') or io.startswith('EXN:'): return None
+        if io == 'OK:stored=%d of %d exact=True' % (c['size'], c['size']): return None
+        return 'write_to_tempfile of %d bytes under RLIMIT_FSIZE=%d returned a file that does not hold the content: %s' % (c['size'], c['limit'], io)
     if op == 'write_to_tempfile':
         head, after, rest = _parse_world(io)
         before = {p: (k, content_of(cd).hex() if k == 'F' else '') for p, (k, cd) in world_entries(c).items()}
